@@ -2,6 +2,7 @@
 //! protocol.  This module never imports `tevec::prelude` (it shadows Iterator methods).
 pub mod proto;
 pub mod rng;
+pub mod rollreg;
 pub mod trace;
 pub use proto::*;
 pub use rng::*;
